@@ -360,6 +360,12 @@ func (e *SpecEnv) binary(n *EBinary) SV {
 		}
 		at, bt := e.val(a), e.val(b)
 		at, bt = e.coerceNil(at, a, bt, b)
+		// an interface value compared with a value of concrete type: the concrete side is boxed (as Go does)
+		if at.Sort == SIfc && bt.Sort != SIfc && b.Ty != nil {
+			bt = e.h.toIface(bt, b.Ty)
+		} else if bt.Sort == SIfc && at.Sort != SIfc && a.Ty != nil {
+			at = e.h.toIface(at, a.Ty)
+		}
 		if at.Sort != bt.Sort {
 			sfail("comparison of different sorts %s vs %s (%s)", at.Sort.Name, bt.Sort.Name, at.S+" / "+bt.S)
 		}
